@@ -14,7 +14,7 @@ R-C02-7  constants of the range polynomial: radix 2 in `d`, `2^bits - 1`, `y - 1
 from bpsa.facts import callee_decl, callee_name
 from bpsa.normal import canon
 from bpsa.terms import walk, short, TERM_IDX, mk_elem, T
-from .common import guard_table, unconditional
+from .common import guard_table, unconditional, variants_under
 from . import msm, weights, recurrence
 from .weights import strip
 
@@ -53,12 +53,9 @@ def run(ctx):
         if good_gate and cfg.dominates(good_gate[0]['guard'].bb, s):
             rep.ok('R-C02-1', key, 'success exit dominated by the pass edge of the gate', ctx.where(v, s))
             continue
-        pcs = ctx.path_conditions(v, s)
-        rec = False
-        for (sw, cond, arms, tg) in pcs:
-            c = canon(cond)
-            if 'RecoverOnly' in c and 'p%d' % act in c and cond.tag == 'binop' and ((cond[1] == 'Eq' and arms == ('otherwise',)) or (cond[1] == 'Ne' and arms == ('0',))):
-                rec = True
+        # decided over the three values of the action: the exit may be reachable under RecoverOnly only
+        vset, unknown = variants_under(ctx, v, ctx.path_conditions(v, s), act) if act is not None else (None, ['no action parameter'])
+        rec = vset is not None and not unknown and vset <= {'RecoverOnly'}
         if rec:
             n_rec += 1
             rep.ok('R-C02-1', key, 'success exit taken only when action == RecoverOnly (no verdict requested)', ctx.where(v, s))
